@@ -4,6 +4,7 @@
 -/
 import DisjointImpls.Lemmas.Refine
 import DisjointImpls.Lemmas.ExpandItems
+import DisjointImpls.Lemmas.HelperAlign
 import DisjointImpls.Props.C01
 namespace DI
 
@@ -229,5 +230,312 @@ theorem C16_bare_const_argument_counterexample :
   constructor <;> with_unfolding_all decide
 
 end ParamExamples
+
+/-! ## The helper trait's parameters and every use of the helper trait agree position by position and kind by kind
+  (`Lemmas/HelperAlign.lean`; model: `helperGenerics`, `helperTraitOfTrait`, `helperImpl`, `helperImpls`, `helperRef`).
+
+  Executable side conditions: `kindsMatch_ha ps args` (the arguments match the parameters kind by kind, position by
+  position; arguments may be missing only for trailing parameters that have a default), `familyKindsMatch_ha tr g` (that, for
+  the trait arguments of every member of the family), `keyNamesFresh_ha ps nkeys`, `genericsShaped_it`.
+  `printedArgs_inh` is `syn`'s printer of an angle-bracketed argument list: lifetime arguments first, whatever their
+  position in the tree. -/
+
+/-- THE SHAPE OF THE HELPER TRAIT'S GENERICS (helper_trait.rs:61-92). For the definition's generics `<ps> where wc` and `nkeys`
+    dispatch keys the helper trait's generics are `<lifetimes(ps), keys, others(ps)> where wc` with the `<`, `>` tokens and the
+    where-clause kept, where
+    * `keys` are exactly `nkeys` parameters, the `i`-th being `_ŠČ<len ps + i>: ?Sized` (a type parameter without default),
+      pairwise differently named;
+    * every parameter of `ps` occurs UNCHANGED (the same node: attributes, bounds, default) exactly once
+      (`lifetimes(ps) ++ others(ps)` is a permutation of `ps`), and inside each of the two groups the order is the
+      definition's (each group is a sublist of `ps`);
+    * the key names clash with no type/const parameter of the definition IF AND ONLY IF `keyNamesFresh_ha ps nkeys`
+      (no type/const parameter is spelled `_ŠČ<m>` with `len ps ≤ m < len ps + nkeys`); the clash is possible:
+      `C16_key_name_clash_counterexample`. -/
+theorem C16_helper_generics_shape (lt gt wc : T) (ps : List T) (nkeys : Nat) :
+    helperGenerics (.node "Generics" [] [lt, .node "List" [] ps, gt, wc]) nkeys =
+      .node "Generics" [] [lt, .node "List" [] (ps.filter isLifetimeParam ++ inhKeyParams_inh ps.length nkeys ++
+        ps.filter (fun p => !isLifetimeParam p)), gt, wc] ∧
+    (inhKeyParams_inh ps.length nkeys).length = nkeys ∧
+    (∀ i, i < nkeys →
+      (inhKeyParams_inh ps.length nkeys)[i]? = some (keyParam ("_ŠČ" ++ toString (ps.length + i)))) ∧
+    (∀ k ∈ inhKeyParams_inh ps.length nkeys, paramKind_ha k = some .type ∧ paramDefault_ha k = none) ∧
+    ((inhKeyParams_inh ps.length nkeys).map paramIdent).Nodup ∧
+    (ps.filter isLifetimeParam).Sublist ps ∧ (ps.filter (fun p => !isLifetimeParam p)).Sublist ps ∧
+    (ps.filter isLifetimeParam ++ ps.filter (fun p => !isLifetimeParam p)).Perm ps ∧
+    (keyNamesFresh_ha ps nkeys = true ↔
+      ∀ k ∈ inhKeyParams_inh ps.length nkeys, ∀ p ∈ ps.filter (fun p => !isLifetimeParam p), paramIdent k ≠ paramIdent p) :=
+  ⟨rfl, keyParams_length_ha _ _, fun i hi => keyParams_get_ha _ _ i hi,
+   fun _ hk => by
+     obtain ⟨i, _, rfl⟩ := keyParams_mem_ha hk
+     exact ⟨(keyParam_facts_ha _).1, (keyParam_facts_ha _).2.1⟩,
+   keyParams_nodup_ha _ _, List.filter_sublist, List.filter_sublist, List.filter_append_perm _ _,
+   keyNamesFresh_iff_ha ps nkeys⟩
+
+/-- A HELPER IMPL MATCHES THE HELPER TRAIT'S PARAMETERS — AS PRINTED. For a helper impl `h` produced by `helperImpl` (trait
+    mode) from a member whose trait path is `mp`, with `ua` the member's own trait arguments and `row.length = idents.length`
+    (true for every row of a family, `payload_row_length_ha`):
+    * IN THE TREE the helper impl's trait arguments are `row' ++ ua` (disjoint.rs:53-80 chains the row in front of ALL of the
+      block's arguments, lifetimes included) — type arguments BEFORE lifetime arguments, which rustc would reject and which
+      does NOT match the helper trait's parameter list (`C16_helper_impl_tree_order_counterexample`);
+    * AS PRINTED by `syn` (`printedArgs_inh`: lifetimes first) they are `lifetimes(ua) ++ row' ++ others(ua)`; nothing in
+      the macro re-orders them, the expansion is correct only through `syn`'s printer;
+    * if `ua` matches the definition's parameters `ps` (`kindsMatch_ha ps ua`), the printed list matches the helper trait's
+      parameter list `helperParams_it ps nkeys` kind by kind and position by position; the (parameter, argument) pairs are
+      exactly the user's pairs with a lifetime parameter, then (`i`-th key parameter, `i`-th row entry), then the user's
+      other pairs — every user argument meets the SAME parameter as in the definition; the `i`-th key parameter and the
+      `i`-th row entry both sit at position `#lifetimes + i`; and the parameters left without an argument are exactly the
+      definition's parameters the block left without an argument. -/
+theorem C16_kinds_align_helper_impl {idx : Nat} {idents : List (BKey × String)} {row : List (Option T)} {member h : T}
+    (ps : List T) (hh : helperImpl idx none idents row member = some h) (hrow : row.length = idents.length) :
+    ∃ mp hp, implTraitPath member = some mp ∧ XOK.traitPathOf h = some hp ∧
+      XOK.segArgs (XOK.lastSeg hp) = rowArgs idents row ++ traitArgsOf_it mp ∧
+      printedArgs_inh (XOK.segArgs (XOK.lastSeg hp)) =
+        (traitArgsOf_it mp).filter isLifetimeArg ++ rowArgs idents row ++ (traitArgsOf_it mp).filter (fun a => !isLifetimeArg a) ∧
+      (kindsMatch_ha ps (traitArgsOf_it mp) = true →
+        kindsMatch_ha (helperParams_it ps idents.length) (printedArgs_inh (XOK.segArgs (XOK.lastSeg hp))) = true ∧
+        List.zip (helperParams_it ps idents.length) (printedArgs_inh (XOK.segArgs (XOK.lastSeg hp))) =
+          (List.zip ps (traitArgsOf_it mp)).filter (fun pa => isLifetimeParam pa.1) ++
+          List.zip (inhKeyParams_inh ps.length idents.length) (rowArgs idents row) ++
+          (List.zip ps (traitArgsOf_it mp)).filter (fun pa => !isLifetimeParam pa.1) ∧
+        (helperParams_it ps idents.length).drop (printedArgs_inh (XOK.segArgs (XOK.lastSeg hp))).length =
+          ps.drop (traitArgsOf_it mp).length ∧
+        (∀ i, i < idents.length →
+          (helperParams_it ps idents.length)[(ps.filter isLifetimeParam).length + i]? =
+            some (keyParam (genIndexedIdent (ps.length + i))) ∧
+          (printedArgs_inh (XOK.segArgs (XOK.lastSeg hp)))[(ps.filter isLifetimeParam).length + i]? =
+            (rowArgs idents row)[i]?)) :=
+  helperImpl_aligned_ha ps hh hrow
+
+/-- the `i`-th entry of the printed row is made from the `i`-th key and the `i`-th column of the member's row (the payload as
+    written, or for a wildcard the projection of the `i`-th key): columns are not permuted -/
+theorem C16_row_columns_in_key_order (idents : List (BKey × String)) (row : List (Option T)) (i : Nat)
+    (h1 : i < idents.length) (h2 : i < row.length) :
+    (rowArgs idents row)[i]? = some (match row[i] with
+      | some p => gaType p
+      | none => gaType (projection idents[i].1.1 idents[i].1.2 idents[i].2)) :=
+  rowArgs_get_ha idents row i h1 h2
+
+/-- THE MAIN IMPL'S HELPER REFERENCE MATCHES THE HELPER TRAIT'S PARAMETERS (main_trait.rs:184-209). If the block's trait
+    arguments `ua` match the definition's parameters `ps`, the arguments of `helperRef name idents ua` — the lifetime arguments
+    of `ua`, one projection per key, the other arguments of `ua`; already in printed order — match
+    `helperParams_it ps nkeys` kind by kind and position by position, with the same pairs as for a helper impl (projections in
+    place of the row); the `i`-th projection `<bounded_i as Trait_i>::Assoc_i` sits at the position of the `i`-th key parameter
+    `_ŠČ<len ps + i>`; the parameters left without an argument are the definition's parameters the block left without one. -/
+theorem C16_kinds_align_main_ref (name : String) (idents : List (BKey × String)) (ps ua : List T)
+    (hk : kindsMatch_ha ps ua = true) :
+    XOK.segArgs (XOK.lastSeg (helperRef name idents ua)) =
+      ua.filter isLifetimeArg ++ idents.map (fun kx => gaType (projection kx.1.1 kx.1.2 kx.2)) ++
+      ua.filter (fun a => !isLifetimeArg a) ∧
+    printedArgs_inh (XOK.segArgs (XOK.lastSeg (helperRef name idents ua))) =
+      XOK.segArgs (XOK.lastSeg (helperRef name idents ua)) ∧
+    kindsMatch_ha (helperParams_it ps idents.length) (XOK.segArgs (XOK.lastSeg (helperRef name idents ua))) = true ∧
+    List.zip (helperParams_it ps idents.length) (XOK.segArgs (XOK.lastSeg (helperRef name idents ua))) =
+      (List.zip ps ua).filter (fun pa => isLifetimeParam pa.1) ++
+      List.zip (inhKeyParams_inh ps.length idents.length) (idents.map (fun kx => gaType (projection kx.1.1 kx.1.2 kx.2))) ++
+      (List.zip ps ua).filter (fun pa => !isLifetimeParam pa.1) ∧
+    (helperParams_it ps idents.length).drop (XOK.segArgs (XOK.lastSeg (helperRef name idents ua))).length =
+      ps.drop ua.length ∧
+    (∀ (i : Nat) (hi : i < idents.length),
+      (helperParams_it ps idents.length)[(ps.filter isLifetimeParam).length + i]? =
+        some (keyParam (genIndexedIdent (ps.length + i))) ∧
+      (XOK.segArgs (XOK.lastSeg (helperRef name idents ua)))[(ps.filter isLifetimeParam).length + i]? =
+        some (gaType (projection idents[i].1.1 idents[i].1.2 idents[i].2))) := by
+  obtain ⟨a1, a2, a3, a4⟩ := helperRef_aligned_ha name idents ps ua hk
+  exact ⟨helperRef_args_ha name idents ua, by rw [helperRef_args_ha, printed_ref_ha], a1, a2, a3, a4⟩
+
+/-- DEFAULTS ARE KEPT, OMITTED TRAILING ARGUMENTS STAY LEGAL. (a) every parameter of the definition is a parameter of the
+    helper trait — the same node, hence with the same default; (b) the defaults of the helper trait are the defaults of the
+    definition, in order; the key parameters have none; (c) the key parameters are inserted BEFORE the definition's type/const
+    parameters, so "defaults are trailing" holds for the helper trait iff it holds for the definition; (d) arity: for
+    arguments `ua` matching `ps` and any `nkeys` key arguments `R` (a row, the projections), the use
+    `lifetimes(ua) ++ R ++ others(ua)` supplies exactly as many lifetimes as the helper trait declares, at most as many other
+    arguments as it declares other parameters, and the parameters it omits are exactly the parameters of the definition that
+    `ua` omits — each of which has a default. -/
+theorem C16_helper_defaults_kept (ps : List T) (nkeys : Nat) :
+    (∀ p ∈ ps, p ∈ helperParams_it ps nkeys) ∧
+    (helperParams_it ps nkeys).filterMap paramDefault_ha = ps.filterMap paramDefault_ha ∧
+    (∀ k ∈ inhKeyParams_inh ps.length nkeys, paramDefault_ha k = none) ∧
+    defaultsTrailing_ha (helperParams_it ps nkeys) = defaultsTrailing_ha ps ∧
+    (∀ (ua R : List T), kindsMatch_ha ps ua = true → R.length = nkeys → (∀ a ∈ R, argKind_ha a = some .type) →
+      (ua.filter isLifetimeArg ++ R ++ ua.filter (fun a => !isLifetimeArg a)).length ≤ (helperParams_it ps nkeys).length ∧
+      ((ua.filter isLifetimeArg ++ R ++ ua.filter (fun a => !isLifetimeArg a)).filter isLifetimeArg).length =
+        ((helperParams_it ps nkeys).filter isLifetimeParam).length ∧
+      ((ua.filter isLifetimeArg ++ R ++ ua.filter (fun a => !isLifetimeArg a)).filter (fun a => !isLifetimeArg a)).length ≤
+        ((helperParams_it ps nkeys).filter (fun p => !isLifetimeParam p)).length ∧
+      (helperParams_it ps nkeys).drop (ua.filter isLifetimeArg ++ R ++ ua.filter (fun a => !isLifetimeArg a)).length =
+        ps.drop ua.length ∧
+      ∀ p ∈ ps.drop ua.length, hasDefault_ha p = true) := by
+  refine ⟨?_, helperParams_defaults_ha ps nkeys, ?_, defaultsTrailing_helper_ha ps nkeys, ?_⟩
+  · intro p hp
+    unfold helperParams_it
+    cases hl : isLifetimeParam p with
+    | true => simp [List.mem_filter, hp, hl]
+    | false => simp [List.mem_filter, hp, hl]
+  · intro k hk
+    obtain ⟨i, _, rfl⟩ := keyParams_mem_ha hk
+    exact (keyParam_facts_ha _).2.1
+  · intro ua R hk hR hRk
+    obtain ⟨a1, _, a3, _⟩ := align_assembly_ha ps ua (inhKeyParams_inh ps.length nkeys) R hk
+      (by rw [keyParams_length_ha, hR]) (fun p hp => keyParams_kind_ha hp) hRk
+    obtain ⟨b1, _, _⟩ := kindsMatch_spec_ha _ _ a1
+    obtain ⟨_, c2, c3, _, _, _⟩ := kindsMatch_filter_ha _ _ a1
+    obtain ⟨d1, _, _⟩ := kindsMatch_spec_ha _ _ c3
+    exact ⟨b1, c2.symm, d1, a3, (kindsMatch_spec_ha _ _ hk).2.2⟩
+
+/-- THE WHOLE FAMILY (trait mode). If the three generators succeed on a family `g` of the trait definition `tr` (whose
+    generics have the shape `syn` produces) and every member's trait arguments match the definition's parameters
+    (`familyKindsMatch_ha tr g`, executable), then the helper trait declares `helperParams_it (params of tr) nkeys`, every
+    helper impl's trait arguments AS PRINTED match that declaration kind by kind and position by position, and so do the
+    arguments of the main impl's helper reference (which are in printed order already). -/
+theorem C16_kinds_align_family (tr : T) (idx : Nat) (g : T × ABG × List Blk) (ht : T) (hs : List T) (m : T)
+    (hht : helperTraitOfTrait tr idx g.2.1.idents.length = some ht)
+    (hhs : helperImpls idx g = some hs) (hm : mainImplOfTrait tr idx g = .ok m)
+    (hgs : genericsShaped_it (XOK.kid tr 6) = true) (hk : familyKindsMatch_ha tr g = true) :
+    traitParams_inh ht = helperParams_it (traitParamsOf_it tr) g.2.1.idents.length ∧
+    (∀ h ∈ hs, ∃ hp, XOK.traitPathOf h = some hp ∧
+      kindsMatch_ha (traitParams_inh ht) (printedArgs_inh (XOK.segArgs (XOK.lastSeg hp))) = true) ∧
+    (∃ href, mainHref_inh m = some href ∧
+      printedArgs_inh (XOK.segArgs (XOK.lastSeg href)) = XOK.segArgs (XOK.lastSeg href) ∧
+      kindsMatch_ha (traitParams_inh ht) (XOK.segArgs (XOK.lastSeg href)) = true) :=
+  family_aligned_ha hht hhs hm hgs hk
+
+/-- `kindsMatch_ha` against the generator's own zip: whenever `zipTraitArgs` succeeds (it does whenever the main impl is
+    generated), `kindsMatch_ha` only adds the arity conditions — no more arguments than parameters, a default for every
+    parameter beyond the last argument -/
+theorem C16_kindsMatch_of_zip (ps args : List T) (am : ArgMap) (hz : zipTraitArgs ps args = some am)
+    (hle : args.length ≤ ps.length) (hd : (ps.drop args.length).all hasDefault_ha = true) : kindsMatch_ha ps args = true :=
+  kindsMatch_of_zip_ha ps args am hz hle hd
+
+/-- what `kindsMatch_ha` says, in plain terms (both directions) -/
+theorem C16_kindsMatch_iff (ps args : List T) :
+    kindsMatch_ha ps args = true ↔
+      args.length ≤ ps.length ∧
+      (∀ (i : Nat) (h1 : i < ps.length) (h2 : i < args.length),
+          (paramKind_ha ps[i]).isSome = true ∧ paramKind_ha ps[i] = argKind_ha args[i]) ∧
+      (∀ p ∈ ps.drop args.length, hasDefault_ha p = true) :=
+  ⟨kindsMatch_spec_ha ps args, fun h => kindsMatch_of_spec_ha ps args h.1 h.2.1 h.2.2⟩
+
+namespace ExAl
+open Ex11 ExIt
+/-! trees for the closed examples of the alignment theorems -/
+def tyParamD (x : String) (bounds : List T) (d : T) : T :=
+  .node "GenericParam::Type" [] [.node "TypeParam" [] [attrs, .node "Ident" [x] [], .node "Some" ["Colon"] [],
+    .node "List" [] bounds, .node "Some" ["Eq"] [], .node "Some" [] [d]]]
+def constParamD (x : String) (ty d : T) : T :=
+  .node "GenericParam::Const" [] [.node "ConstParam" [] [attrs, .node "Ident" [x] [], ty, .node "Some" ["Eq"] [], .node "Some" [] [d]]]
+/-- `'a, U: Clone = u32, const N: usize = 3` -/
+def kitaPs : List T :=
+  [ltParam "a", tyParamD "U" [traitBound (Ex11.path [Ex11.seg "Clone"])] (tyS "u32"), constParamD "N" (tyS "usize") (lit "3")]
+def traitWith (ps : List T) : T :=
+  .node "ItemTrait" [] [attrs, inh, leaf "None", leaf "None", leaf "None", .node "Ident" ["Kita"] [],
+    .node "Generics" [] [leaf "Some", .node "List" [] ps, leaf "Some", leaf "None"],
+    leaf "None", .node "List" [] [], .node "List" [] [tConst "C" (tyS "usize") (leaf "None")]]
+/-- `trait Kita<'a, U: Clone = u32, const N: usize = 3> { const C: usize; }` -/
+def kitaD : T := traitWith kitaPs
+/-- `Other<Kind = k>` -/
+def other (k : String) : T :=
+  Ex11.path [.node "PathSegment" [] [.node "Ident" ["Other"] [], .node "PathArguments::AngleBracketed" [] [.node "Ign" [] [leaf "None"],
+    .node "List" [] [.node "GenericArgument::AssocType" [] [.node "AssocType" [] [.node "Ident" ["Kind"] [], leaf "None", Ex11.tyPath [Ex11.seg k]]]]]]]
+/-- `impl<'x, T: Dispatch<Group = g>, V: Other<Kind = k>> Kita<args> for T { const C: usize = 1; }` (two dispatch keys) -/
+def mem (g k : String) (args : List T) : T :=
+  memberOf [ltParam "x", tyParam "T" [traitBound (dispatch g)], tyParam "V" [traitBound (other k)]] args
+    [iConst "C" (tyS "usize") (lit "1")]
+/-- `'x, V` -/
+def args2 : List T := [ltArg "x", tyArg (tyS "V")]
+/-- `'x, V, 2` -/
+def args3 : List T := [ltArg "x", tyArg (tyS "V"), constArg (lit "2")]
+/-- the checks of the family example: hypotheses of `C16_kinds_align_family` and its conclusions, the kinds the helper
+    trait declares, the TREE order of a helper impl's arguments, the omitted parameters -/
+def familyCheck (ps : List T) (nArgs : Nat) (g : T × ABG × List Blk) (ht : T) (hs : List T) (m : T) : Bool :=
+  g.2.1.idents.length == 2 && g.2.2.length == 2 && hs.length == 2 &&
+  genericsShaped_it (XOK.kid (traitWith ps) 6) && familyKindsMatch_ha (traitWith ps) g && keyNamesFresh_ha ps 2 &&
+  (traitParams_inh ht).map pname_inh == ["a", "_ŠČ3", "_ŠČ4", "U", "N"] &&
+  (traitParams_inh ht).map paramKind_ha == [some .lifetime, some .type, some .type, some .type, some .const] &&
+  (traitParams_inh ht).filterMap paramDefault_ha == [tyS "u32", lit "3"] && defaultsTrailing_ha (traitParams_inh ht) &&
+  hs.all (fun h => match XOK.traitPathOf h with
+    | some hp =>
+        -- in the tree: the row first, then the block's arguments — type arguments before the lifetime
+        ((XOK.segArgs (XOK.lastSeg hp)).map argKind_ha).take 3 == [some .type, some .type, some .lifetime] &&
+        !kindsMatch_ha (traitParams_inh ht) (XOK.segArgs (XOK.lastSeg hp)) &&
+        -- as printed: aligned
+        ((printedArgs_inh (XOK.segArgs (XOK.lastSeg hp))).map argKind_ha).take 4 ==
+          [some .lifetime, some .type, some .type, some .type] &&
+        kindsMatch_ha (traitParams_inh ht) (printedArgs_inh (XOK.segArgs (XOK.lastSeg hp))) &&
+        (printedArgs_inh (XOK.segArgs (XOK.lastSeg hp))).length == 2 + nArgs &&
+        (traitParams_inh ht).drop (2 + nArgs) == ps.drop nArgs
+    | none => false) &&
+  (match mainHref_inh m with
+   | some href => kindsMatch_ha (traitParams_inh ht) (XOK.segArgs (XOK.lastSeg href)) &&
+       (XOK.segArgs (XOK.lastSeg href)).length == 2 + nArgs
+   | none => false)
+end ExAl
+
+section AlignExamples
+set_option maxRecDepth 1000000
+open Ex11 ExIt ExAl
+
+/-- NON-VACUITY of `C16_kinds_align_family` / `C16_kinds_align_helper_impl` / `C16_kinds_align_main_ref` /
+    `C16_helper_defaults_kept` / `C16_helper_generics_shape`, and the decided counterexample for the TREE order:
+    `trait Kita<'a, U: Clone = u32, const N: usize = 3> { const C: usize; }` with two blocks
+    `impl<'x, T: Dispatch<Group = g>, V: Other<Kind = k>> Kita<'x, V> for T` (two dispatch keys; `N` omitted): the three
+    generators succeed, all hypotheses hold; the helper trait declares `<'a, _ŠČ3: ?Sized, _ŠČ4: ?Sized, U: Clone = u32,
+    const N: usize = 3>` (kinds lifetime, type, type, type, const; defaults `u32`, `3` kept and trailing); each helper impl's
+    arguments are `<P1, P2, 'x, V>` IN THE TREE — which does NOT match the declaration — and `<'x, P1, P2, V>` AS PRINTED,
+    which does; the omitted parameter is the definition's `N`; the main reference `<'x, proj1, proj2, V>` matches.
+    Replayed on the real macro: the expansion prints `_Kita0<'_ŠČ0, KA, GroupA, _ŠČ1>` and compiles. -/
+theorem C16_align_example_omitted_default :
+    ExIt.run kitaD [mem "GroupA" "KA" args2, mem "GroupB" "KB" args2] (familyCheck kitaPs 2) = true := by
+  with_unfolding_all decide
+
+/-- the same with all three arguments written, `Kita<'x, V, 2>`: nothing is omitted -/
+theorem C16_align_example_all_arguments :
+    ExIt.run kitaD [mem "GroupA" "KA" args3, mem "GroupB" "KB" args3] (familyCheck kitaPs 3) = true := by
+  with_unfolding_all decide
+
+/-- THE TREE ORDER IS NOT THE DECLARATION ORDER (why `printedArgs_inh` is in the statements): for the definition's parameters
+    `'a, U = u32, N = 3`, one key and the block arguments `'x, V`, the helper impl's argument list as `helperImpl` builds it
+    (`row' ++ ua` = `P, 'x, V`) does not match `helperParams_it` (`'a, _ŠČ3, U, N`), the printed list `'x, P, V` does. Not a
+    defect of the expansion (rustc only sees the printed tokens), but the macro relies on `syn`'s printer for it. -/
+theorem C16_helper_impl_tree_order_counterexample :
+    kindsMatch_ha kitaPs args2 = true ∧
+    kindsMatch_ha (helperParams_it kitaPs 1) ([tyArg (tyS "P")] ++ args2) = false ∧
+    kindsMatch_ha (helperParams_it kitaPs 1) (printedArgs_inh ([tyArg (tyS "P")] ++ args2)) = true := by
+  with_unfolding_all decide
+
+/-- FINDING (reserved key-parameter name): `keyNamesFresh_ha` can fail. `trait Kita<_ŠČ1> { const C: usize; }` with the blocks
+    `impl<T: Dispatch<Group = g>, X> Kita<X> for T` (one key, one parameter: the key parameter is `_ŠČ<1 + 0>`): the generators
+    succeed and the arguments match the parameters, but the helper trait declares `<_ŠČ1: ?Sized, _ŠČ1>` — two parameters of
+    one name (rustc: E0403, replayed on the real macro; with the parameter spelled `_ŠČ0` the invocation compiles). Only
+    reachable when the user spells a trait parameter with the reserved prefix and the colliding number. -/
+theorem C16_key_name_clash_counterexample :
+    ExIt.run (traitWith [tyParam "_ŠČ1" []])
+      [memberOf [tyParam "T" [traitBound (dispatch "GroupA")], tyParam "X" []] [tyArg (tyS "X")] [iConst "C" (tyS "usize") (lit "1")],
+       memberOf [tyParam "T" [traitBound (dispatch "GroupB")], tyParam "X" []] [tyArg (tyS "X")] [iConst "C" (tyS "usize") (lit "1")]]
+      (fun g ht _ _ => g.2.1.idents.length == 1 && familyKindsMatch_ha (traitWith [tyParam "_ŠČ1" []]) g &&
+        !keyNamesFresh_ha [tyParam "_ŠČ1" []] 1 && keyNamesFresh_ha [tyParam "_ŠČ0" []] 1 &&
+        (traitParams_inh ht).map paramIdent == [some "_ŠČ1", some "_ŠČ1"]) = true := by
+  with_unfolding_all decide
+
+/-- non-vacuity of `C16_kindsMatch_of_zip` and of the negative side of `kindsMatch_ha`: the zip succeeds and the arity
+    conditions hold for `'x, V` against `'a, U = u32, N = 3`; a type argument in a lifetime position, a missing argument for a
+    parameter without default and a surplus argument are rejected -/
+example :
+    (zipTraitArgs kitaPs args2).isSome = true ∧ args2.length ≤ kitaPs.length ∧
+    (kitaPs.drop args2.length).all hasDefault_ha = true ∧
+    kindsMatch_ha kitaPs [tyArg (tyS "V"), ltArg "x"] = false ∧
+    kindsMatch_ha [ltParam "a", tyParam "U" []] [ltArg "x"] = false ∧
+    kindsMatch_ha [ltParam "a"] [ltArg "x", tyArg (tyS "V")] = false := by
+  with_unfolding_all decide
+
+/-- a block that writes its trait arguments in the wrong order, `Kita<X, 'x>` for `trait Kita<'a, U>` (not legal Rust, but
+    `syn` parses it): `kindsMatch_ha` fails and so does the generator's own zip — `main_trait::generate` reaches
+    `unreachable!()` (replayed on the real macro: "proc macro panicked … internal error: entered unreachable code" instead of a
+    diagnostic) -/
+example :
+    kindsMatch_ha [ltParam "a", tyParam "U" []] [tyArg (tyS "X"), ltArg "x"] = false ∧
+    (zipTraitArgs [ltParam "a", tyParam "U" []] [tyArg (tyS "X"), ltArg "x"]).isNone = true := by
+  with_unfolding_all decide
+
+end AlignExamples
 
 end DI
